@@ -86,6 +86,11 @@ type c08Input struct {
 }
 
 var c08Programs = []string{
+	// state behind the predefined globals err / errmsg / pi: each run starts from their documented initial values, whatever an
+	// earlier run in the same process left behind (a failed conversion as the last thing, an assignment)
+	"print err errmsg pi\nn := str2num \"12x\"\nprint n err errmsg\n",
+	"print err errmsg\nb := str2bool \"maybe\"\nprint b err errmsg\n",
+	"print pi err errmsg\npi = 3\nerr = true\nerrmsg = \"mine\"\nprint pi err errmsg\n",
 	"a := 1\nb := 2\nc := 3\n",
 	"d := 4\nc := 3\nb := 2\na := 1\n",
 	"if true\n    a := 1\n    b := 2\n    zz := 3\nend\n",
